@@ -8,6 +8,7 @@ use crate::dag::{Dag, DagLike, InternalSharing};
 use crate::jet::Jet;
 use crate::node;
 use crate::types::{self, Type};
+use crate::Cmr;
 use std::collections::HashMap;
 use std::mem;
 use std::sync::atomic::{AtomicUsize, Ordering};
@@ -150,8 +151,8 @@ impl<'brand> DagLike for &'_ ResolvedExpression<'brand> {
             | ResolvedInner::AssertR(ResolvedCmr::Expr(ref left), ref right) => {
                 Dag::Binary(left, right)
             }
-            ResolvedInner::AssertL(ref child, ResolvedCmr::Literal)
-            | ResolvedInner::AssertR(ResolvedCmr::Literal, ref child) => Dag::Unary(child),
+            ResolvedInner::AssertL(ref child, ResolvedCmr::Literal(_))
+            | ResolvedInner::AssertR(ResolvedCmr::Literal(_), ref child) => Dag::Unary(child),
             ResolvedInner::Inline(ref inner) => inner.as_dag().map(|node| node),
         }
     }
@@ -159,7 +160,7 @@ impl<'brand> DagLike for &'_ ResolvedExpression<'brand> {
 
 enum ResolvedCmr<'brand> {
     Expr(Arc<ResolvedExpression<'brand>>),
-    Literal,
+    Literal(Cmr),
 }
 
 enum ResolvedInner<'brand> {
@@ -343,7 +344,7 @@ fn parse_inner<J: Jet>(
                             right.in_degree.fetch_add(1, Ordering::SeqCst);
                             ResolvedCmr::Expr(right)
                         }
-                        ast::AstCmr::Literal => ResolvedCmr::Literal,
+                        ast::AstCmr::Literal(cmr) => ResolvedCmr::Literal(*cmr),
                     };
                     ResolvedInner::AssertL(left, right)
                 }
@@ -354,7 +355,7 @@ fn parse_inner<J: Jet>(
                             left.in_degree.fetch_add(1, Ordering::SeqCst);
                             ResolvedCmr::Expr(left)
                         }
-                        ast::AstCmr::Literal => ResolvedCmr::Literal,
+                        ast::AstCmr::Literal(cmr) => ResolvedCmr::Literal(*cmr),
                     };
 
                     let right = inline_stack.pop().unwrap();
@@ -466,6 +467,13 @@ fn parse_inner<J: Jet>(
                     }
                     converted.push(child);
                     continue;
+                }
+                // With a literal CMR the only child is the (unary) `left` index.
+                ResolvedInner::AssertL(_, ResolvedCmr::Literal(cmr)) => {
+                    left.map(|left| node::Inner::AssertL(left, cmr))
+                }
+                ResolvedInner::AssertR(ResolvedCmr::Literal(cmr), _) => {
+                    left.map(|right| node::Inner::AssertR(cmr, right))
                 }
                 ResolvedInner::AssertL(..) => left.zip(right).map(|(left, right)| {
                     let cmr = right.cmr();
